@@ -31,7 +31,7 @@ EXEC = {
                 q='file:0,universe:600,callbacks:700,random:300', t='file:0,universe:0,callbacks:10000,random:4000'),
     'C13': dict(owns=['C13'], decide='pairs Validate(&v) / Parse(toMap(v), &fresh) on fully populated values: TLC compares the two logged results (path, code, type, message, value) '
                 'and each with the reference',
-                q='file:0,pairs:1200', t='file:0,pairs:20000'),
+                q='file:0,pairs:900,pairspt:500', t='file:0,pairs:15000,pairspt:8000'),
     'C03': dict(owns=['C03'], decide='C03_Dest (MC); logged destination of every successful Parse = RefDestParse (leaf values, slice length/order, untouched optionals, pointer allocation, $extra)',
                 q='file:0,universe:600,success:900,random:300', t='file:0,universe:0,success:12000,random:4000'),
     'C09': dict(owns=['C09'], decide='every visit order explored by StructField (MC); all n! forced orders of each real case agree',
@@ -207,7 +207,7 @@ def pool_consts(procs='{1}', maxcalls=2, kinds=POOL_KINDS, maxobj=4, extra=None)
 
 def build_race_harness():
     out = vlib.BUILD + '/zogverif-race'
-    r = vlib.subprocess.run(['go', 'build', '-race', '-tags', 'verif', '-o', out, '.'], cwd=vlib.VERIF + '/harness', env=dict(vlib.GOENV, CGO_ENABLED='1'),
+    r = vlib.subprocess.run(['go', 'build'] + vlib.modfile_args() + ['-race', '-tags', 'verif', '-o', out, '.'], cwd=vlib.VERIF + '/harness', env=dict(vlib.GOENV, CGO_ENABLED='1'),
                             capture_output=True, text=True)
     if r.returncode != 0:
         raise Inconclusive('race build failed:\n' + r.stdout + r.stderr)
@@ -304,3 +304,96 @@ def pools_engine(prop, tier, replay, t0):
 
 ENGINES['C07'] = pools_engine
 ENGINES['C08'] = pools_engine
+
+
+# ---------------------------------------------------------------------------------------------
+# ZogBuild engine: C16
+# ---------------------------------------------------------------------------------------------
+def build_consts(maxs, maxops, clone='TRUE', extra=None):
+    c = {'MaxSchemas': str(maxs), 'MaxOps': str(maxops), 'MaxInitTests': '3', 'SwCloneCopiesSlices': clone}
+    if extra:
+        c.update(extra)
+    return c
+
+
+def build_trap():
+    """TLC's shortest builder history that tells copying clones from slice-sharing clones, as an episode for the harness."""
+    cache = '%s/buildtrap-%s.ndjson' % (vlib.BUILD, vlib.spec_hash())
+    if os.path.exists(cache):
+        return cache
+    os.makedirs(vlib.BUILD, exist_ok=True)
+    res = vlib.run_tlc('ZogBuild', vlib.cfg_text(build_consts(3, 4, clone='FALSE'), invariants=['Independent'], view='View'), workers=8, timeout=600, dump=True)
+    eps = []
+    if res['ce']:
+        ce = json.load(open(res['ce']))['counterexample']
+        states = [s[1] for s in ce['state']]
+        first = states[0]
+        ep = dict(ntests=len(first['intended'][0]['tests']), keys=sorted(first['lastop']['keys']), ops=[])
+        for s in states[1:]:
+            lo = s['lastop']
+            ep['ops'].append(dict(op=lo['op'], s=lo['s'], o=lo['o'], keys=sorted(lo['keys'])))
+        eps.append(ep)
+        # the same history continued symmetrically (append to the other schema first)
+    with open(cache, 'w') as f:
+        for e in eps:
+            f.write(json.dumps(e) + '\n')
+    return cache
+
+
+def build_engine(prop, tier, replay, t0):
+    vlib.build_harness()
+    d = vlib.scratch('build.')
+    trace = os.path.join(d, 'buildtrace.ndjson')
+    thorough = tier == 'thorough'
+    ms, mo = (4, 5) if thorough else (3, 4)
+    mc = vlib.run_tlc('ZogBuild', vlib.cfg_text(build_consts(ms, mo), invariants=['Independent'], view='View'), workers=16, timeout=7200)
+    vlib.tlc_ok(mc, 'ZogBuild')
+    trap = build_trap()
+    if replay:
+        st = vlib.harness(['build', '-cases', replay, '-exhaustive', '0', '-random', '0', '-out', trace])
+    else:
+        st = vlib.harness(['build', '-cases', trap, '-exhaustive', '3' if thorough else '2', '-random', '20000' if thorough else '1500',
+                           '-maxlen', '10' if thorough else '8', '-seed', str(vlib.seed()), '-out', trace])
+    cfg = vlib.cfg_text(dict(build_consts(1000, 1000), TraceFile='"trace.ndjson"', VerdictFile='"verdicts.ndjson"', MaxInitTests='6'), init='TraceInit', next_='TraceNext')
+    res = vlib.run_tlc('Trace_Build', cfg, workers=1, timeout=3600, files={'trace.ndjson': trace})
+    vf = os.path.join(res['dir'], 'verdicts.ndjson')
+    if not os.path.exists(vf):
+        raise Inconclusive('Trace_Build produced no verdicts\n' + res['out'][-4000:])
+    verdicts = [json.loads(l) for l in open(vf) if l.strip()]
+    if not verdicts or verdicts[-1]['prop'] != 'END':
+        raise Inconclusive('Trace_Build stopped early')
+    viol = verdicts[:-1]
+    rc = 0
+    if viol:
+        os.makedirs(vlib.REPLAY, exist_ok=True)
+        lines = open(trace).read().splitlines()
+        seen = set()
+        for v in viol[:5]:
+            if v['id'] in seen:
+                continue
+            seen.add(v['id'])
+            start = max(i for i in range(min(v['line'], len(lines))) if lines[i].startswith('{"e":"new"'))
+            end = next((i for i in range(start + 1, len(lines)) if lines[i].startswith('{"e":"new"')), len(lines))
+            new = json.loads(lines[start])
+            ops = [json.loads(x) for x in lines[start:end] if x.startswith('{"e":"op"')]
+            path = '%s/%s-%s.ndjson' % (vlib.REPLAY, prop, v['id'])
+            with open(path, 'w') as f:
+                f.write(json.dumps(dict(ntests=new['ntests'], keys=new['keys'], ops=ops)) + '\n')
+            print('VIOLATION property=%s replay=%s' % (prop, path))
+            log('  verdict: %s line %s: %s' % (v['kind'], v['line'], json.dumps(v['detail'])[:700]))
+        rc = 1
+    if not replay:
+        cov = dict(states=mc['distinct'], transitions=mc['generated'], traces_validated_against_impl=st['episodes'], trace_lines=st['lines'],
+                   evaluations=st['episodes'], distinct_nontrivial=st['distinct'],
+                   rule='every valid operation sequence of length <= %s over {Test, PostTransform, Pick, Omit, Extend, Merge} from bases with 0..4 initial tests (all backing-array capacities), '
+                        'TLC\'s trap history for shared slices, and seeded random sequences; after EVERY operation every live schema is probed in Parse and Validate with self-identifying '
+                        'fields/tests/transforms and compared by TLC with its ghost; distinct = distinct operation sequences' % ('3' if thorough else '2'),
+                   samples=st['samples'], mc_config='ZogBuild MaxSchemas=%d MaxOps=%d MaxInitTests=3 invariant Independent' % (ms, mo), tlc_trace_states=res['distinct'], exhaustive=False)
+        vlib.write_evidence(prop, tier, 'model_checking', cov,
+                            ['Go append is modelled as in-place write below capacity, doubling re-allocation otherwise',
+                             'field schemas are shared by reference between derivations (documented shallow semantics): only struct-level tests, transforms and the field set are compared'],
+                            time.time() - t0, len(viol))
+    return rc
+
+
+ENGINES['C16'] = build_engine
